@@ -23,6 +23,28 @@ package parser
 //@   ensures  @C13 implies(err != nil, structured(err) || isctx(err))
 //@   ensures  @C11 implies(err != nil && causectx(err), isctx(err))
 
+// Progress facts that make the statement loops terminate (C12, C01): advance moves the cursor by exactly one
+// token, and a statement that parsed successfully consumed at least one token.
+//@ func (*Parser).advance
+//@   inherit
+//@   ensures recv.currentPos == old(recv.currentPos) + 1
+
+//@ func (*Parser).expectedError
+//@   inherit
+//@   ensures result != nil
+
+//@ func (*Parser).parseWithStatement
+//@   inherit
+//@   ensures implies(err == nil, recv.currentPos > old(recv.currentPos))
+
+//@ func (*Parser).parseStatement
+//@   inherit
+//@   ensures implies(err == nil, recv.currentPos > old(recv.currentPos))
+
+//@ func (*Parser).synchronize
+//@   inherit
+//@   loop 1 decreases len(p.tokens) - p.currentPos
+
 // Entry points. Per-call state is (re)assigned before the statement loop reads
 // it, so a result never depends on what the instance did before (C08); the
 // recursion depth, the context slot and the holder's configuration are the
@@ -52,6 +74,7 @@ package parser
 //@   loop 1 invariant 0 <= p.currentPos && p.positions == old(result.PositionMapping) && p.tokens == old(result.Tokens)
 
 //@ func (*Parser).parseWithRecovery
+//@   loop 1 decreases len(tokens) - p.currentPos
 //@   ensures p.depth == old(p.depth) && p.ctx == old(p.ctx)
 //@   ensures p.strict == old(p.strict) && p.dialect == old(p.dialect)
 //@   ensures p.positions == nil
